@@ -1,7 +1,16 @@
 #!/bin/sh
-# Offline setup: nothing to compile. Verifies the tools the checks need are present.
+# Offline setup: nothing to compile. Verifies the tools the checks need and that the verification engine is
+# sound on this machine: model conformance with the installed Biopython, CPython cross-check of the translator,
+# mutation self-test (DESIGN §2.8). Any failure here is a checker error, never a verdict about antismash.
 cd "$(dirname "$0")" || exit 3
+export PYTHONDONTWRITEBYTECODE=1
 python3-vt -c "import z3; print('z3', z3.get_version_string())" || exit 3
 /venv/bin/python -c "import antismash, Bio; print('antismash from', antismash.__file__, 'biopython', Bio.__version__)" || exit 3
 mkdir -p evidence replays
+echo "model conformance:"; PYTHONPATH="$(pwd)" /venv/bin/python -m pyvc.conformance 1500 || { echo "CONFORMANCE FAILED"; exit 3; }
+echo "CPython cross-check:"; python3-vt -m pyvc.crosscheck 120 > /tmp/verif-crosscheck.json 2>&1; RC=$?
+python3 -c "import json;d=json.load(open('/tmp/verif-crosscheck.json'));print('compared',d['compared'],'disagreements',len(d['disagreements']))" || { cat /tmp/verif-crosscheck.json | tail -20; exit 3; }
+[ $RC -eq 0 ] || { echo "CROSS-CHECK DISAGREEMENT"; exit 3; }
+rm -f /tmp/verif-crosscheck.json
+echo "mutation self-test:"; python3-vt tools/selftest.py || { echo "SELF-TEST FAILED"; exit 3; }
 exit 0
